@@ -321,6 +321,7 @@ func init() {
 			}
 		}
 		x.bytePairBlocks(fns)
+		x.offsetNeighbours(fns)
 		x.pairsFor(fns, both, 60000*x.scale)
 		x.equalPairs(fns, both, 60000*x.scale)
 		relC02(x)
@@ -328,6 +329,7 @@ func init() {
 	props["C04"] = func(x *Ctx) {
 		fns := []string{"Compare", "EqualFold"}
 		x.bytePairBlocks(fns)
+		x.offsetNeighbours(fns)
 		x.pairsFor(fns, both, 50000*x.scale)
 		x.equalPairs(fns, both, 50000*x.scale)
 		relC04(x, 60000*x.scale)
@@ -637,6 +639,41 @@ func (x *Ctx) nearMissBlocks(fns []string) {
 		}
 	}
 	x.note("near-miss blocks: %d cases", n)
+}
+
+// offsetNeighbours: every code point against the code points at the distances case pairs usually have (1, 16,
+// 26, 32, 40, 48, 80 ...): a hand-written fast path that folds a RANGE by adding an offset is wrong exactly at
+// the holes of the range (× U+00D7 / ÷ U+00F7 inside Latin-1, the gaps of Greek, Cyrillic, Armenian ...)
+func (x *Ctx) offsetNeighbours(fns []string) {
+	deltas := []rune{1, 2, 8, 16, 26, 32, 38, 40, 48, 64, 80, 96, 116, 128, 7264}
+	top := rune(0x3000)
+	if x.tier == "thorough" {
+		top = 0x1FFFF
+	}
+	n := 0
+	for r := rune(0x80); r <= top; r++ {
+		if !utf8.ValidRune(r) {
+			continue
+		}
+		for _, d := range deltas {
+			q := r + d
+			if !utf8.ValidRune(q) {
+				continue
+			}
+			a, b := []byte(string(r)), []byte(string(q))
+			for _, fn := range fns {
+				x.eval(&Case{Fn: fn, S: a, T: b}, false)
+				x.eval(&Case{Fn: fn, S: b, T: a}, false)
+			}
+			if n%64 == 0 { // inside longer strings too
+				for _, fn := range fns {
+					x.eval(&Case{Fn: fn, S: append(append([]byte("ab"), a...), 'z'), T: append(append([]byte("AB"), b...), 'Z')}, false)
+				}
+			}
+			n++
+		}
+	}
+	x.note("offset neighbours: %d pairs of code points", n)
 }
 
 // orbitPairs: for every folding orbit with more than one member, every ordered pair (a, b) of its
